@@ -15,8 +15,9 @@ def main(argv=None) -> int:
     ap.add_argument("--list", action="store_true")
     args = ap.parse_args(argv)
     seed = int(os.environ.get("VERIF_SEED", "0") or 0)
-    if "/repo/src" not in sys.path:
-        sys.path.insert(0, "/repo/src")
+    src = os.environ.get("VERIF_REPO", "/repo") + "/src"
+    if src not in sys.path:
+        sys.path.insert(0, src)
     if args.selftest:
         from mc import selftest
 
